@@ -43,7 +43,16 @@ func c14Nibbles(c *Ctx) {
 	}
 	flags := map[int64]bool{}
 	okW := len(firstWrites) >= 1
+	// a first byte chosen before one write: every value the variable can hold
+	var flat []ssa.Value
 	for _, v := range firstWrites {
+		if ph, ok := core.Unwrap(v).(*ssa.Phi); ok {
+			flat = append(flat, ph.Edges...)
+		} else {
+			flat = append(flat, v)
+		}
+	}
+	for _, v := range flat {
 		if k, isC := core.ConstInt(v); isC {
 			flags[k>>4] = true
 			if k&0xf != 0 {
